@@ -167,6 +167,10 @@ def main(prop, tier="quick", only=None):
                     reproduced = bool(rr.get("reproduced"))
         except Exception:  # pylint: disable=broad-except
             rep["replay_error"] = traceback.format_exc()[-1500:]
+        if not reproduced and o["kind"] in ("rac", "closed", "bounded") and "replay" not in rep:
+            # these obligations ARE evaluations of the real, imported code: the recorded detail is the failing input/fact
+            reproduced = True
+            rep["note"] = "obligation of kind '%s' is evaluated on the real imported package; the failing case is in solver_output" % o["kind"]
         rep["reproduced_on_real_code"] = reproduced
         path = os.path.join(outdir, "replay-%d.json" % len(violations))
         json.dump(rep, open(path, "w"), indent=1, default=str)
